@@ -22,7 +22,7 @@ CHECKS = {
    "Trusted: the reference map (Go map + sort).",
    "DESIGN.md 4/C03"),
  "C04": ("exploration", "evil-peer fault injection + model oracle over answers",
-   "Completeness: proofs of random trees for present/absent/prefix/extension keys verify and determine the true answers (both proof versions). Soundness: a client holding only the trusted root reads through a peer that serves honest, mutated (38 mutation kinds), spliced and stale proofs; every non-error answer must equal the model; every mutant accepted by VerifyProof is re-interrogated. Fabricated minimal proofs and re-encodings of honest entries (database serialization with forged or spliced children) are served as well, and the subtree returned for every accepted corrupted proof must be part of the trusted tree. Fixed deep prefix chains probe the proof depth bound.",
+   "Completeness: proofs of random trees for present/absent/prefix/extension keys verify and determine the true answers (both proof versions). Soundness: a client holding only the trusted root reads through a peer that serves honest, mutated (38 mutation kinds), spliced and stale proofs; every non-error answer must equal the model; every mutant accepted by VerifyProof is re-interrogated. Fabricated minimal proofs and re-encodings of honest entries (database serialization with forged or spliced children) are served as well, and the subtree returned for every accepted corrupted proof must be part of the trusted tree. Fixed deep prefix chains probe the proof depth bound. Remote readers are also written to locally and must then answer like a full replica with the same writes, whichever proof version the peer answers with; a third of the iteration requests state an inner node as position.",
    "Trusted: the monitor's own partial-tree interpreter and the reference map; hash collision resistance.",
    "DESIGN.md 4/C04"),
  "C05": ("exploration", "conservation monitor over committed state and H1 taps",
